@@ -335,6 +335,13 @@ def to_plain(x):
     """Structural rendering of an abstract-repr tree (proxies kept)."""
     import pulser.math as pm
 
+    from pulser.backend.observable import Observable
+
+    if isinstance(x, Observable):
+        # the object's own attributes (not its serialised form): a field lost on encode *and* defaulted on decode shows
+        d = {k: to_plain(v) for k, v in vars(x).items() if k not in ("_uuid", "uuid")}
+        d["__class__"] = type(x).__name__
+        return d
     if hasattr(x, "_to_abstract_repr") and not isinstance(x, (dict, list, tuple)):
         return to_plain(x._to_abstract_repr())
     if isinstance(x, dict):
@@ -394,8 +401,11 @@ def h_config(shape):
             cfg = EmulationConfig(**cfg_kw)
         except (ValueError, TypeError):
             raise core.Infeasible()
-        s = cfg.to_abstract_repr()  # real schema validation
-        cfg2 = EmulationConfig.from_abstract_repr(s)
+        try:
+            s = cfg.to_abstract_repr()  # real schema validation
+            cfg2 = EmulationConfig.from_abstract_repr(s)
+        except Exception:  # noqa: BLE001 - a valid config must serialise and its document must decode
+            return [("k3:config_roundtrip_completes", False)]
         a, b = to_plain(cfg._backend_options), to_plain(cfg2._backend_options)
         obs = [("k3:config_same_keys", set(a) == set(b))]
         for k in a:
